@@ -14,3 +14,4 @@ INVARIANT Inv
 INVARIANT HistoryTreeIsRestriction
 PROPERTY AppendImpliesPrefix
 CHECK_DEADLOCK FALSE
+SYMMETRY WriterSym
